@@ -27,35 +27,35 @@ import (
 func init() { commands["apidec"] = cmdAPIDec }
 
 // ---------------------------------------------------------------- JSON trees
-type J struct {
+type AJ struct {
 	K byte // 'z' null, 'b' bool, 'n' number, 's' string, 'a' array, 'o' object
 	B bool
 	M *big.Int // number: mantissa
 	E *int     // number: nil = plain integer literal, else value M*10^E written with a fraction or an exponent
 	S string
-	A []*J
-	O []JKV
+	A []*AJ
+	O []aJKV
 }
-type JKV struct {
+type aJKV struct {
 	K string
-	V *J
+	V *AJ
 }
 
-func jnull() *J                    { return &J{K: 'z'} }
-func jbool(b bool) *J              { return &J{K: 'b', B: b} }
-func jint(n int64) *J              { return &J{K: 'n', M: big.NewInt(n)} }
-func jbig(n *big.Int) *J           { return &J{K: 'n', M: new(big.Int).Set(n)} }
-func jdec(m *big.Int, e int) *J    { return &J{K: 'n', M: new(big.Int).Set(m), E: &e} }
-func jstr(s string) *J             { return &J{K: 's', S: s} }
-func jarr(xs ...*J) *J             { return &J{K: 'a', A: xs} }
-func jobj(kvs ...any) *J {
-	o := &J{K: 'o'}
+func ajnull() *AJ                { return &AJ{K: 'z'} }
+func ajbool(b bool) *AJ          { return &AJ{K: 'b', B: b} }
+func jint(n int64) *AJ           { return &AJ{K: 'n', M: big.NewInt(n)} }
+func jbig(n *big.Int) *AJ        { return &AJ{K: 'n', M: new(big.Int).Set(n)} }
+func jdec(m *big.Int, e int) *AJ { return &AJ{K: 'n', M: new(big.Int).Set(m), E: &e} }
+func ajstr(s string) *AJ         { return &AJ{K: 's', S: s} }
+func ajarr(xs ...*AJ) *AJ        { return &AJ{K: 'a', A: xs} }
+func ajobj(kvs ...any) *AJ {
+	o := &AJ{K: 'o'}
 	for i := 0; i+1 < len(kvs); i += 2 {
-		o.O = append(o.O, JKV{kvs[i].(string), kvs[i+1].(*J)})
+		o.O = append(o.O, aJKV{kvs[i].(string), kvs[i+1].(*AJ)})
 	}
 	return o
 }
-func (j *J) get(k string) *J {
+func (j *AJ) get(k string) *AJ {
 	for _, kv := range j.O {
 		if kv.K == k {
 			return kv.V
@@ -63,7 +63,7 @@ func (j *J) get(k string) *J {
 	}
 	return nil
 }
-func (j *J) clone() *J {
+func (j *AJ) clone() *AJ {
 	c := *j
 	if j.M != nil {
 		c.M = new(big.Int).Set(j.M)
@@ -78,12 +78,12 @@ func (j *J) clone() *J {
 	}
 	c.O = nil
 	for _, kv := range j.O {
-		c.O = append(c.O, JKV{kv.K, kv.V.clone()})
+		c.O = append(c.O, aJKV{kv.K, kv.V.clone()})
 	}
 	return &c
 }
 
-func (j *J) sx() string {
+func (j *AJ) sx() string {
 	switch j.K {
 	case 'z':
 		return "null"
@@ -137,7 +137,7 @@ func numText(m *big.Int, e *int) string {
 	return fmt.Sprintf("%se%d", m.String(), *e)
 }
 
-func (j *J) text(b *bytes.Buffer) {
+func (j *AJ) text(b *bytes.Buffer) {
 	switch j.K {
 	case 'z':
 		b.WriteString("null")
@@ -175,22 +175,22 @@ func (j *J) text(b *bytes.Buffer) {
 		b.WriteByte('}')
 	}
 }
-func (j *J) Text() string {
+func (j *AJ) Text() string {
 	var b bytes.Buffer
 	j.text(&b)
 	return b.String()
 }
 
-func jFromSx(sx *Sx) *J {
+func ajFromSx(sx *Sx) *AJ {
 	if !sx.IsLst {
 		if sx.Atom == "null" {
-			return jnull()
+			return ajnull()
 		}
 		panic("bad json sx " + sx.Atom)
 	}
 	switch sx.List[0].Atom {
 	case "b":
-		return jbool(sx.List[1].Atom == "1")
+		return ajbool(sx.List[1].Atom == "1")
 	case "n":
 		m, ok := new(big.Int).SetString(sx.List[1].Atom, 10)
 		if !ok {
@@ -203,17 +203,17 @@ func jFromSx(sx *Sx) *J {
 		}
 		return jbig(m)
 	case "s":
-		return jstr(sx.List[1].Atom)
+		return ajstr(sx.List[1].Atom)
 	case "a":
-		out := &J{K: 'a'}
+		out := &AJ{K: 'a'}
 		for _, x := range sx.List[1:] {
-			out.A = append(out.A, jFromSx(x))
+			out.A = append(out.A, ajFromSx(x))
 		}
 		return out
 	case "o":
-		out := &J{K: 'o'}
+		out := &AJ{K: 'o'}
 		for _, kv := range sx.List[1:] {
-			out.O = append(out.O, JKV{kv.List[0].Atom, jFromSx(kv.List[1])})
+			out.O = append(out.O, aJKV{kv.List[0].Atom, ajFromSx(kv.List[1])})
 		}
 		return out
 	}
@@ -222,27 +222,27 @@ func jFromSx(sx *Sx) *J {
 
 // jFromRaw re-reads raw JSON text (json.RawMessage kept by a decoder) as a tree; a literal with fraction/exponent
 // gives back (all digits, exponent - fraction length), which inverts numText
-func jFromRaw(raw []byte) *J {
+func ajFromRaw(raw []byte) *AJ {
 	dec := json.NewDecoder(bytes.NewReader(raw))
 	dec.UseNumber()
 	var v any
 	if err := dec.Decode(&v); err != nil {
-		return jstr("<<unparseable raw: " + err.Error() + ">>")
+		return ajstr("<<unparseable raw: " + err.Error() + ">>")
 	}
 	// object member order is lost by map decoding: re-read members in document order with the token stream
 	dec = json.NewDecoder(bytes.NewReader(raw))
 	dec.UseNumber()
-	var rd func() *J
-	rd = func() *J {
+	var rd func() *AJ
+	rd = func() *AJ {
 		t, err := dec.Token()
 		must(err)
 		switch x := t.(type) {
 		case nil:
-			return jnull()
+			return ajnull()
 		case bool:
-			return jbool(x)
+			return ajbool(x)
 		case string:
-			return jstr(x)
+			return ajstr(x)
 		case json.Number:
 			s := string(x)
 			if !strings.ContainsAny(s, ".eE") {
@@ -262,17 +262,17 @@ func jFromRaw(raw []byte) *J {
 			return jdec(m, exp)
 		case json.Delim:
 			if x == '[' {
-				out := &J{K: 'a'}
+				out := &AJ{K: 'a'}
 				for dec.More() {
 					out.A = append(out.A, rd())
 				}
 				dec.Token()
 				return out
 			}
-			out := &J{K: 'o'}
+			out := &AJ{K: 'o'}
 			for dec.More() {
 				k, _ := dec.Token()
-				out.O = append(out.O, JKV{k.(string), rd()})
+				out.O = append(out.O, aJKV{k.(string), rd()})
 			}
 			dec.Token()
 			return out
@@ -326,111 +326,111 @@ func latticeAmount(r *Rng) *big.Int {
 	}
 }
 
-func genPostingJ(r *Rng) *J {
-	return jobj("source", jstr(Pick(r, []string{"world", "alice", "users:1", "bank-1_x"})), "destination", jstr(Pick(r, []string{"bob", "users:2:main", "world"})),
-		"asset", jstr(Pick(r, []string{"USD", "EUR/2", "COIN_X/6", "A"})), "amount", jbig(latticeAmount(r)))
+func genPostingJ(r *Rng) *AJ {
+	return ajobj("source", ajstr(Pick(r, []string{"world", "alice", "users:1", "bank-1_x"})), "destination", ajstr(Pick(r, []string{"bob", "users:2:main", "world"})),
+		"asset", ajstr(Pick(r, []string{"USD", "EUR/2", "COIN_X/6", "A"})), "amount", jbig(latticeAmount(r)))
 }
-func genMetaJ(r *Rng) *J {
-	o := &J{K: 'o'}
+func genMetaJ(r *Rng) *AJ {
+	o := &AJ{K: 'o'}
 	for i, n := 0, r.Intn(3); i < n; i++ {
 		k := Pick(r, []string{"k1", "k2", "role", "é", "a b"})
 		if o.get(k) == nil {
-			o.O = append(o.O, JKV{k, jstr(Pick(r, genStrings))})
+			o.O = append(o.O, aJKV{k, ajstr(Pick(r, genStrings))})
 		}
 	}
 	return o
 }
-func genVarsJ(r *Rng, v1form bool) *J {
-	o := &J{K: 'o'}
+func genVarsJ(r *Rng, v1form bool) *AJ {
+	o := &AJ{K: 'o'}
 	n := 1 + r.Intn(3)
 	for i := 0; i < n; i++ {
 		k := fmt.Sprintf("v%d", i)
-		var v *J
+		var v *AJ
 		switch r.Intn(6) {
 		case 0:
-			v = jstr(Pick(r, []string{"alice", "users:1", "USD 100", "USD/2 " + latticeAmount(r).String(), "42"}))
+			v = ajstr(Pick(r, []string{"alice", "users:1", "USD 100", "USD/2 " + latticeAmount(r).String(), "42"}))
 		case 1, 2: // monetary, amount as a JSON number
-			v = jobj("asset", jstr(Pick(r, []string{"USD", "EUR/2"})), "amount", jbig(latticeAmount(r)))
+			v = ajobj("asset", ajstr(Pick(r, []string{"USD", "EUR/2"})), "amount", jbig(latticeAmount(r)))
 		case 3: // monetary, amount as a string
-			v = jobj("asset", jstr(Pick(r, []string{"USD", "EUR/2"})), "amount", jstr(latticeAmount(r).String()))
+			v = ajobj("asset", ajstr(Pick(r, []string{"USD", "EUR/2"})), "amount", ajstr(latticeAmount(r).String()))
 		case 4:
 			if v1form {
-				v = jstr(latticeAmount(r).String())
+				v = ajstr(latticeAmount(r).String())
 			} else {
 				v = jbig(latticeAmount(r)) // bare number variable (v2 accepts it)
 			}
 		default:
-			v = jstr(Pick(r, apiBoundaryStrings))
+			v = ajstr(Pick(r, apiBoundaryStrings))
 		}
-		o.O = append(o.O, JKV{k, v})
+		o.O = append(o.O, aJKV{k, v})
 	}
 	return o
 }
-func genScriptJ(r *Rng, v1form bool) *J {
-	o := jobj("plain", jstr("vars {\n monetary $v0\n}\nsend $v0 (\n source = @world\n destination = @bob\n)"))
+func genScriptJ(r *Rng, v1form bool) *AJ {
+	o := ajobj("plain", ajstr("vars {\n monetary $v0\n}\nsend $v0 (\n source = @world\n destination = @bob\n)"))
 	if r.Chance(85) {
-		o.O = append(o.O, JKV{"vars", genVarsJ(r, v1form)})
+		o.O = append(o.O, aJKV{"vars", genVarsJ(r, v1form)})
 	}
 	if r.Chance(10) {
-		o.O = append(o.O, JKV{"template", jstr("tpl1")})
+		o.O = append(o.O, aJKV{"template", ajstr("tpl1")})
 	}
 	return o
 }
-func genTxJ(r *Rng) *J {
-	o := &J{K: 'o'}
+func genTxJ(r *Rng) *AJ {
+	o := &AJ{K: 'o'}
 	if r.Chance(60) {
-		ps := &J{K: 'a'}
+		ps := &AJ{K: 'a'}
 		for i, n := 0, 1+r.Intn(3); i < n; i++ {
 			ps.A = append(ps.A, genPostingJ(r))
 		}
-		o.O = append(o.O, JKV{"postings", ps})
+		o.O = append(o.O, aJKV{"postings", ps})
 	} else {
-		o.O = append(o.O, JKV{"script", genScriptJ(r, false)})
+		o.O = append(o.O, aJKV{"script", genScriptJ(r, false)})
 	}
 	if r.Chance(50) {
-		o.O = append(o.O, JKV{"timestamp", jstr(Pick(r, apiTimes))})
+		o.O = append(o.O, aJKV{"timestamp", ajstr(Pick(r, apiTimes))})
 	}
 	if r.Chance(40) {
-		o.O = append(o.O, JKV{"reference", jstr(Pick(r, []string{"r1", "ref:2", ""}))})
+		o.O = append(o.O, aJKV{"reference", ajstr(Pick(r, []string{"r1", "ref:2", ""}))})
 	}
 	if r.Chance(60) {
-		o.O = append(o.O, JKV{"metadata", genMetaJ(r)})
+		o.O = append(o.O, aJKV{"metadata", genMetaJ(r)})
 	}
 	if r.Chance(25) {
-		o.O = append(o.O, JKV{"accountMetadata", jobj(Pick(r, []string{"alice", "bob"}), genMetaJ(r))})
+		o.O = append(o.O, aJKV{"accountMetadata", ajobj(Pick(r, []string{"alice", "bob"}), genMetaJ(r))})
 	}
 	if r.Chance(15) {
-		o.O = append(o.O, JKV{"runtime", jstr(Pick(r, []string{"machine", "experimental-interpreter", "", "bogus"}))})
+		o.O = append(o.O, aJKV{"runtime", ajstr(Pick(r, []string{"machine", "experimental-interpreter", "", "bogus"}))})
 	}
 	if r.Chance(25) {
-		o.O = append(o.O, JKV{"force", jbool(r.Bool())})
+		o.O = append(o.O, aJKV{"force", ajbool(r.Bool())})
 	}
 	return o
 }
-func genBulkJ(r *Rng) *J {
-	out := &J{K: 'a'}
+func genBulkJ(r *Rng) *AJ {
+	out := &AJ{K: 'a'}
 	for i, n := 0, 1+r.Intn(4); i < n; i++ {
-		var e *J
-		tgt := func() (*J, *J) {
+		var e *AJ
+		tgt := func() (*AJ, *AJ) {
 			if r.Bool() {
-				return jstr("ACCOUNT"), jstr(Pick(r, []string{"alice", "users:1"}))
+				return ajstr("ACCOUNT"), ajstr(Pick(r, []string{"alice", "users:1"}))
 			}
-			return jstr("TRANSACTION"), jbig(latticeAmount(r))
+			return ajstr("TRANSACTION"), jbig(latticeAmount(r))
 		}
 		switch r.Intn(5) {
 		case 0, 1:
-			e = jobj("action", jstr("CREATE_TRANSACTION"), "data", genTxJ(r))
+			e = ajobj("action", ajstr("CREATE_TRANSACTION"), "data", genTxJ(r))
 		case 2:
 			t, id := tgt()
-			e = jobj("action", jstr("ADD_METADATA"), "data", jobj("targetType", t, "targetId", id, "metadata", genMetaJ(r)))
+			e = ajobj("action", ajstr("ADD_METADATA"), "data", ajobj("targetType", t, "targetId", id, "metadata", genMetaJ(r)))
 		case 3:
-			e = jobj("action", jstr("REVERT_TRANSACTION"), "data", jobj("id", jbig(Pick(r, []*big.Int{big.NewInt(1), big.NewInt(0), pow(2, 64, -1), pow(2, 64, 0), pow(2, 63, 1)})), "force", jbool(r.Bool()), "atEffectiveDate", jbool(r.Bool())))
+			e = ajobj("action", ajstr("REVERT_TRANSACTION"), "data", ajobj("id", jbig(Pick(r, []*big.Int{big.NewInt(1), big.NewInt(0), pow(2, 64, -1), pow(2, 64, 0), pow(2, 63, 1)})), "force", ajbool(r.Bool()), "atEffectiveDate", ajbool(r.Bool())))
 		default:
 			t, id := tgt()
-			e = jobj("action", jstr("DELETE_METADATA"), "data", jobj("targetType", t, "targetId", id, "key", jstr("k1")))
+			e = ajobj("action", ajstr("DELETE_METADATA"), "data", ajobj("targetType", t, "targetId", id, "key", ajstr("k1")))
 		}
 		if r.Chance(30) {
-			e.O = append(e.O, JKV{"ik", jstr(Pick(r, []string{"ik1", "ik2"}))})
+			e.O = append(e.O, aJKV{"ik", ajstr(Pick(r, []string{"ik1", "ik2"}))})
 		}
 		out.A = append(out.A, e)
 	}
@@ -439,12 +439,12 @@ func genBulkJ(r *Rng) *J {
 
 // ---------------------------------------------------------------- grammar-aware mutations
 type jslot struct {
-	parent *J
+	parent *AJ
 	idx    int    // index into parent.A or parent.O
 	key    string // object key ("" for array elements)
 }
 
-func collectSlots(j *J, out *[]jslot) {
+func collectSlots(j *AJ, out *[]jslot) {
 	for i, x := range j.A {
 		*out = append(*out, jslot{j, i, ""})
 		collectSlots(x, out)
@@ -454,13 +454,13 @@ func collectSlots(j *J, out *[]jslot) {
 		collectSlots(kv.V, out)
 	}
 }
-func (s jslot) get() *J {
+func (s jslot) get() *AJ {
 	if s.parent.K == 'a' {
 		return s.parent.A[s.idx]
 	}
 	return s.parent.O[s.idx].V
 }
-func (s jslot) set(v *J) {
+func (s jslot) set(v *AJ) {
 	if s.parent.K == 'a' {
 		s.parent.A[s.idx] = v
 	} else {
@@ -468,33 +468,33 @@ func (s jslot) set(v *J) {
 	}
 }
 
-func otherType(r *Rng, cur byte) *J {
+func otherType(r *Rng, cur byte) *AJ {
 	for {
-		var v *J
+		var v *AJ
 		switch r.Intn(8) {
 		case 0:
-			v = jnull()
+			v = ajnull()
 		case 1:
-			v = jbool(r.Bool())
+			v = ajbool(r.Bool())
 		case 2:
 			v = jint(int64(r.Intn(5)) - 1)
 		case 3:
-			v = jstr(Pick(r, []string{"", "x", "1", "true", "null", "USD"}))
+			v = ajstr(Pick(r, []string{"", "x", "1", "true", "null", "USD"}))
 		case 4:
-			v = jarr()
+			v = ajarr()
 		case 5:
-			v = jarr(jint(1), jstr("a"), jnull(), jobj("z", jint(2)))
+			v = ajarr(jint(1), ajstr("a"), ajnull(), ajobj("z", jint(2)))
 		case 6:
-			v = jobj()
+			v = ajobj()
 		default:
-			v = jobj("asset", jstr("USD"), "amount", jint(7), "x", jarr(jbool(true)))
+			v = ajobj("asset", ajstr("USD"), "amount", jint(7), "x", ajarr(ajbool(true)))
 		}
 		if v.K != cur {
 			return v
 		}
 	}
 }
-func hugeNumber(r *Rng) *J {
+func hugeNumber(r *Rng) *AJ {
 	switch r.Intn(14) {
 	case 0:
 		return jdec(big.NewInt(1), 400)
@@ -528,7 +528,7 @@ func hugeNumber(r *Rng) *J {
 }
 
 // mutate applies one mutation of the named class in place; returns false when it is not applicable to this tree
-func mutate(r *Rng, root *J, class string) bool {
+func mutate(r *Rng, root *AJ, class string) bool {
 	var slots []jslot
 	collectSlots(root, &slots)
 	if len(slots) == 0 {
@@ -556,9 +556,9 @@ func mutate(r *Rng, root *J, class string) bool {
 			return false
 		}
 		if s.key == "timestamp" {
-			s.set(jstr(Pick(r, apiBadTimes)))
+			s.set(ajstr(Pick(r, apiBadTimes)))
 		} else {
-			s.set(jstr(Pick(r, apiBoundaryStrings)))
+			s.set(ajstr(Pick(r, apiBoundaryStrings)))
 		}
 	case "huge_number":
 		s, ok := pickSlot(func(s jslot) bool { return s.get().K == 'n' })
@@ -571,7 +571,7 @@ func mutate(r *Rng, root *J, class string) bool {
 		if !ok {
 			return false
 		}
-		s.set(jstr(latticeAmount(r).String()))
+		s.set(ajstr(latticeAmount(r).String()))
 	case "amount_as_number":
 		s, ok := pickSlot(func(s jslot) bool { return s.key == "amount" })
 		if !ok {
@@ -583,7 +583,7 @@ func mutate(r *Rng, root *J, class string) bool {
 		if !ok {
 			return false
 		}
-		s.parent.O = append(append([]JKV{}, s.parent.O[:s.idx]...), s.parent.O[s.idx+1:]...)
+		s.parent.O = append(append([]aJKV{}, s.parent.O[:s.idx]...), s.parent.O[s.idx+1:]...)
 	case "extra_field":
 		s, ok := pickSlot(func(s jslot) bool { return s.get().K == 'o' })
 		tgt := root
@@ -593,10 +593,10 @@ func mutate(r *Rng, root *J, class string) bool {
 		if tgt.K != 'o' || tgt.get("zzUnknown") != nil {
 			return false
 		}
-		tgt.O = append(tgt.O, JKV{"zzUnknown", otherType(r, 0)})
+		tgt.O = append(tgt.O, aJKV{"zzUnknown", otherType(r, 0)})
 	case "null_everything":
 		s := Pick(r, slots)
-		s.set(jnull())
+		s.set(ajnull())
 	case "root_confusion":
 		*root = *otherType(r, root.K)
 	default:
@@ -770,12 +770,12 @@ func rawSx(raw json.RawMessage) string {
 	if raw == nil {
 		return "null"
 	}
-	return jFromRaw(raw).sx()
+	return ajFromRaw(raw).sx()
 }
 
 // ---------------------------------------------------------------- monitors (independent of the model)
 // C36 on the decoders: an amount written in the body as an integer (JSON number or decimal string) must come out digit-exact.
-func monitorAmounts(kind string, j *J, res decResult) []string {
+func monitorAmounts(kind string, j *AJ, res decResult) []string {
 	var out []string
 	if res.panic != "" {
 		return nil
@@ -817,7 +817,7 @@ func monitorAmounts(kind string, j *J, res decResult) []string {
 	}
 	return out
 }
-func monitorScriptVars(api string, script *J, vars map[string]string) []string {
+func monitorScriptVars(api string, script *AJ, vars map[string]string) []string {
 	var out []string
 	if script == nil || script.K != 'o' {
 		return nil
@@ -883,7 +883,7 @@ func monitorAccepted(kind string, res decResult) string {
 }
 
 // C38 on the decoders: a panic is never the answer to a body
-func monitorPanic(kind string, j *J, res decResult) string {
+func monitorPanic(kind string, j *AJ, res decResult) string {
 	if res.panic == "" {
 		return ""
 	}
@@ -900,14 +900,14 @@ func monitorPanic(kind string, j *J, res decResult) string {
 }
 
 // ---------------------------------------------------------------- command
-func apiCaseSx(kind string, j *J) string { return L("apidec", kind, j.sx()) }
+func apiCaseSx(kind string, j *AJ) string { return L("apidec", kind, j.sx()) }
 
 func cmdAPIDec(args []string) int {
 	f := ParseFlags(args)
 	out := NewOut(f.Out)
 	defer out.Close()
 	seen := map[string]bool{}
-	one := func(kind string, j *J, classes []string) {
+	one := func(kind string, j *AJ, classes []string) {
 		cs := apiCaseSx(kind, j)
 		res := runDecoder(kind, []byte(j.Text()))
 		out.Case(cs, res.sx)
@@ -947,22 +947,22 @@ func cmdAPIDec(args []string) int {
 		for _, line := range ReadLines(f.Replay) {
 			sx, err := ParseSx(line)
 			must(err)
-			one(sx.List[1].Atom, jFromSx(sx.List[2]), nil)
+			one(sx.List[1].Atom, ajFromSx(sx.List[2]), nil)
 		}
 		return 0
 	}
 	r := NewRng(f.Seed)
 	// fixed corpus first: the timestamp instance, the confirmed witnesses, spelled-out boundary cases
 	for _, s := range append(append([]string{}, apiTimes...), apiBadTimes...) {
-		one("time", jstr(s), nil)
+		one("time", ajstr(s), nil)
 	}
-	one("v1script", jobj("plain", jstr("x"), "vars", jobj("x", jint(1))), []string{"type_confusion"})
-	one("scriptv1", jobj("plain", jstr("x"), "vars", jobj("x", jobj("asset", jstr("USD"), "amount", jbig(pow(2, 53, 1))))), []string{"amount_as_number"})
+	one("v1script", ajobj("plain", ajstr("x"), "vars", ajobj("x", jint(1))), []string{"type_confusion"})
+	one("scriptv1", ajobj("plain", ajstr("x"), "vars", ajobj("x", ajobj("asset", ajstr("USD"), "amount", jbig(pow(2, 53, 1))))), []string{"amount_as_number"})
 	kinds := []string{"v2tx", "v2tx", "v2tx", "scriptv1", "scriptv1", "v1script", "v1script", "bulk", "bulk", "meta"}
 	for i := 0; i < f.N; i++ {
 		rr := r.Fork()
 		kind := Pick(rr, kinds)
-		var j *J
+		var j *AJ
 		switch kind {
 		case "v2tx":
 			j = genTxJ(rr)
